@@ -83,6 +83,19 @@ fn main() {
     }
     {
         let _gag = StderrGag::new();
+        let known_a = ck.known().clone();
+        ck.run(
+            Section::enumerate(
+                "index-64KiB-alignment",
+                "one bucket whose sorted section holds exactly 3638 / 3639 / 3640 / 25483 / 25484 / 25485 entries (40 + 18 n bytes: just before, on and behind a 64 KiB boundary) plus pending updates (an add, a remove), saved and reloaded, twice; 2 hot buckets",
+                || Box::new(index::alignment_cases().into_iter()),
+                move |c: &index::IndexCase| index::check(c, &known_a, inside),
+            )
+            .shards(12),
+        );
+    }
+    {
+        let _gag = StderrGag::new();
         ck.run(
             Section::pbt("index-history", tier.pick(6_000, 300_000), index::strategy, move |c: &index::IndexCase| index::check(c, &known2, inside))
                 .shards(16)
